@@ -88,6 +88,7 @@ def _c01_rule(op, args, impl):
 
 INFO = {
     "C01": {
+        "cli": True,
         "rule": "point add/mul, ecm_oneshot and the batched many_simplify/many_adds/ecm_oneshot_parallel on random curves and points (finite, infinite, equal, opposite, multiples of one another, un-normalised) modulo 53 moduli: small composites, primes, prime powers, products up to 2^92, B1 in 0..30 and at the u64 boundary; select_b on [-5, 1005] and on sizes up to 100000 bits; ecm / ecm_parallel::ecm on composites with B1 = select_b, small B1 and B1 = 0; the three factorize entry points on every n in [1, 3000] (thorough 10^5), n <= 0, prime powers up to 2^70, 2^a*m, Carmichael numbers, semiprimes, cubes and fifth powers of primes up to 2^32 (thorough 2^40), smooth x rough products, products of three primes, 2*p and p for Mersenne primes up to 2^607-1 (batched driver up to 2^127-1); scripted histories (first doubling not invertible, draws 1 and n-1, a batch whose curves fail at different primes so that gcd = n, singular curve modulo one factor, liar bases before a witness); every run's random history (curves, points and the Miller-Rabin bases drawn inside the drivers) is captured by the hook and replayed into the model, in a dev-profile and a release-profile build of the harness; with RFACTOR_BIN set, stdout of `rfactor n` / `rfactor --json n`. Non-trivial: n > 3; distinct = distinct (op,args incl. history).",
         "rulefn": _c01_rule,
         "release_pass": True,
@@ -102,6 +103,7 @@ INFO = {
         "level_note": "Trusted: Lean kernel + 3 standard axioms; RNG hook + decoder; harness-supplied select_b for n > 1000. Partial: termination and primality of the returned factors are not theorems (probabilistic).",
     },
     "C04": {
+        "cli": True,
         "rule": _RES_GEN,
         "rulefn": _poly_pair_rule,
         "trusted": ["Mathlib Polynomial.resultant (determinant of the Sylvester matrix) as the specification"],
@@ -111,6 +113,7 @@ INFO = {
         "level_note": "Trusted: Lean kernel + 3 standard axioms; Mathlib resultant; correspondence coverage. Partial: resultant_smart on non-constant inputs is certified per explored case (exactness flag + Bareiss determinant), not proved.",
     },
     "C05": {
+        "cli": True,
         "rule": _RES_GEN + " For C05: f of degree >= 1, repeated factors, every residue of deg mod 4; metamorphic ops x->x+c, x->-x, disc(f g).",
         "rulefn": _poly_pair_rule,
         "trusted": ["Mathlib Polynomial.resultant as the specification of Res(f, f')"],
